@@ -24,6 +24,11 @@ func (eval Evaluator) EvaluateMany(ctIn *rlwe.Ciphertext, linearTransformations 
 		if opOut[i] == nil {
 			return fmt.Errorf("output slice contains unallocated ciphertext")
 		}
+
+		// The input is read again by the following linear transformations
+		if opOut[i] == ctIn && i != len(linearTransformations)-1 {
+			return fmt.Errorf("output ciphertext %d is the input ciphertext: only the last output can be the input", i)
+		}
 	}
 
 	var levelQ int
